@@ -1,6 +1,7 @@
 package route
 
 import (
+	"errors"
 	"sync"
 	"sync/atomic"
 	"time"
@@ -52,6 +53,10 @@ type CloudWatch struct {
 // NewCloudWatch creates a route that writes metrics to the AWS service CloudWatch
 // We will automatically run the route and the destination
 func NewCloudWatch(key string, matcher matcher.Matcher, awsProfile, awsRegion, awsNamespace string, awsDimensions [][]string, bufSize, flushMaxSize, flushMaxWait int, storageResolution int64, blocking bool) (Route, error) {
+	wait := time.Duration(flushMaxWait) * time.Millisecond
+	if bufSize < 0 || wait <= 0 {
+		return nil, errors.New("bufSize must be >= 0 and flushMaxWait must be > 0")
+	}
 
 	r := &CloudWatch{
 		awsProfile:         awsProfile,
@@ -64,7 +69,7 @@ func NewCloudWatch(key string, matcher matcher.Matcher, awsProfile, awsRegion, a
 		blocking:           blocking,
 		bufSize:            bufSize,
 		flushMaxSize:       flushMaxSize,
-		flushMaxWait:       time.Duration(flushMaxWait) * time.Millisecond,
+		flushMaxWait:       wait,
 
 		numOut:                stats.Counter("dest=cloudwatch" + ".unit=Metric.direction=out"),
 		numCloudWatchMessages: stats.Counter("dest=cloudwatch" + "unit.Metric.what=CloudWatchMessagesPublished"),
